@@ -165,6 +165,7 @@ func checkC01(w *World, r *Report) {
 	r.Rule("C01.success", "P5", "= C14.success: a pay-out is booked out of a destination's state only on the success edge of its bank call; coins booked out although they stayed in the main account come back as fresh inflow in the next block and are put through the sub-distributors - and their burn share - a second time: supply falls by more than the configured share", 9)
 	r.Rule("C01.handover", "P7", "= C02.boundaries (hand-over rows): a period is closed, and its successor started at the period's EndTime, exactly when the block time is not before that EndTime (ordering table over the two instants as time values); a hand-over decided in another unit or with another comparison closes a period early and the emission between the block time and the EndTime is never minted", 4)
 	r.Rule("C01.inflow", "P6", "= C03.inflow: the amount the burn share is a fraction of is the main account's current balance minus the current sum of all recorded remains; an inflow inflated by coins counted twice burns more than the configured share", 3)
+	r.Rule("C01.sweep", "P5,P6,P7", "= C14.sweep: a source's pending coins and what is swept from it are handed on together or not at all - coins whose books were cleared although the sweep failed come back as fresh main inflow and pay the burn share a second time", 7)
 	r.Rule("C01.burn1", "P5,P6", "the burn is reached only under the true edge of State.Burn; the burned coins are result #0 of state.Remains.TruncateDecimal(), the account is DistributorMainAccount, and state.Remains is overwritten with result #1 of the same call only on the success edge", 5)
 	r.Rule("C01.select", "P7", "= C02.select: the amount minted in a block is the schedule of the CURRENT period counted from its predecessor's end; both are selected by sequence id over all configured periods (a selection by list position mints off schedule for accepted lists in another order)", 18)
 	if !ro.checkFloors(r) {
@@ -384,6 +385,7 @@ func checkC01(w *World, r *Report) {
 	c01mint(w, r, mintSites)
 	wrapperRule(w, r, "C01.wrapper")
 	successRule(w, r, "C01.success")
+	sweepRule(w, r, "C01.sweep")
 	shareRule(w, r, checkC03, "C03.inflow", "C01.inflow", nil)
 	shareRule(w, r, checkC02, "C02.boundaries", "C01.handover", func(o Obligation) bool { return strings.HasPrefix(o.Construct, "hand-over") })
 	// ---------- C01.abort ----------
